@@ -42,6 +42,9 @@ struct Scenario {
     advances: u32,
     /// a further task asks the actor to shut down gracefully, concurrently with the writers
     shutdown: bool,
+    /// a further task tells the actor that everything stamped <= T has been streamed to the object store
+    /// (WalActorHandle::truncate), concurrently with the writers; writes stamped > T must still survive
+    truncate: Option<u64>,
 }
 
 impl Scenario {
@@ -53,7 +56,7 @@ impl Scenario {
     }
     fn json(&self, schedule: &[u32]) -> serde_json::Value {
         json!({"group_commit_max_entries": self.gce, "rotate_every": self.rotate_every, "writers": self.writers,
-               "faults": self.faults.iter().map(|(i, f)| json!([i, f.name()])).collect::<Vec<_>>(), "advances": self.advances, "shutdown": self.shutdown, "schedule": schedule})
+               "faults": self.faults.iter().map(|(i, f)| json!([i, f.name()])).collect::<Vec<_>>(), "advances": self.advances, "shutdown": self.shutdown, "truncate": self.truncate, "schedule": schedule})
     }
     fn shape(&self) -> String {
         format!(
@@ -61,7 +64,7 @@ impl Scenario {
             if self.gce == 1 { "1" } else { ">1" },
             match self.rotate_every { 0 => "never", 1 => "every-entry", _ => "every-2nd" },
             self.faults.iter().map(|(_, f)| f.name()).collect::<Vec<_>>().join(","),
-            if self.shutdown { " +shutdown" } else { "" }
+            if self.shutdown { " +shutdown" } else if self.truncate.is_some() { " +truncate" } else { "" }
         )
     }
 }
@@ -130,6 +133,10 @@ fn run_once(sc: &Scenario, ch: &mut Chooser) -> Outcome {
                 let h = handle.clone();
                 sched.add("closer", Box::pin(async move { h.shutdown().await }), false);
             }
+            if let Some(t) = sc.truncate {
+                let h = handle.clone();
+                sched.add("streamer", Box::pin(async move { h.truncate(t) }), false);
+            }
             drop(handle);
             let r = sched.run_to_completion(ch, 5_000).await;
             let writers = ids
@@ -189,6 +196,10 @@ fn judge(sc: &Scenario, out: &Outcome, crash_images: &AtomicU64) -> Vec<(String,
                 Err(e) => v.push((format!("recovery-error {}{tlabel}", sc.shape()), format!("crash after I/O call {i}: {e}"))),
                 Ok(rec) => {
                     for (ts, stamp) in &acked {
+                        // a truncation request may remove what is stamped <= T (it has been streamed); nothing else
+                        if sc.truncate.map(|t| *ts <= t).unwrap_or(false) {
+                            continue;
+                        }
                         if (i as u64) >= *stamp && !rec.contains(ts) {
                             let ops: Vec<String> = out.log.iter().map(|o| format!("{}({}{})", o.kind, o.file.trim_start_matches("wal-").trim_end_matches(".wal"), if o.ok { "" } else { ",FAILED" })).collect();
                             v.push((
@@ -227,6 +238,7 @@ fn main() {
             }).collect(),
             advances: r["advances"].as_u64().unwrap() as u32,
             shutdown: r["shutdown"].as_bool().unwrap_or(false),
+            truncate: r["truncate"].as_u64(),
         };
         let schedule: Vec<u32> = r["schedule"].as_array().unwrap().iter().map(|x| x.as_u64().unwrap() as u32).collect();
         let mut ch = polex::replay_prefix(&schedule);
@@ -257,10 +269,14 @@ fn main() {
     for gce in [1usize, 2, 8] {
         for rotate_every in [1usize, 2, 0] {
             for w in &writer_sets {
-                bases.push(Scenario { gce, rotate_every, writers: w.clone(), faults: vec![], advances: 2, shutdown: false });
+                bases.push(Scenario { gce, rotate_every, writers: w.clone(), faults: vec![], advances: 2, shutdown: false, truncate: None });
             }
             // graceful shutdown racing with two writers (the last batch is flushed by the shutdown path)
-            bases.push(Scenario { gce, rotate_every, writers: vec![1, 1], faults: vec![], advances: 2, shutdown: true });
+            bases.push(Scenario { gce, rotate_every, writers: vec![1, 1], faults: vec![], advances: 2, shutdown: true, truncate: None });
+            // a truncation request (everything stamped <= 15 is streamed: writer 0's stamps are 11, 12; writer 1's 21, 22)
+            // racing with the writers: whichever order the entries reached the files in, the ones above 15 must survive
+            bases.push(Scenario { gce, rotate_every, writers: vec![1, 1], faults: vec![], advances: 2, shutdown: false, truncate: Some(15) });
+            bases.push(Scenario { gce, rotate_every, writers: vec![2, 1], faults: vec![], advances: 2, shutdown: false, truncate: Some(15) });
         }
     }
     // fault plans: every single fault position x kind (quick), plus all pairs (thorough) over the first
